@@ -567,6 +567,34 @@ def define_function(text, mode, funcs, free=(), structs=None):
     return '\n'.join(out), (name, params, rty), [t for (_, _, t) in se.side]
 
 
+def define_out_functions(text, cname, ctor, members, mode, funcs, structs=None):
+    """the extracted function ends in `{ <ctor>(vp_ret, a1, ..., an);  return; };` - split it into n functions returning a_k"""
+    text = re.sub(r'#line[^\n]*', '', text)
+    text = re.sub(r'#pragma[^\n]*', '', text)
+    m = list(re.finditer(r'\{\s*' + re.escape(ctor) + r'\(vp_ret,(.*?)\);\s*return;\s*\};?', text, re.S))
+    if len(m) != 1:
+        raise WPError('%s: expected exactly one `%s(vp_ret, ...); return;`, found %d' % (cname, ctor, len(m)))
+    args, depth, cur = [], 0, ''
+    for ch in m[0].group(1):
+        if ch == ',' and depth == 0:
+            args.append(cur.strip()); cur = ''
+            continue
+        depth += ch in '([' ; depth -= ch in ')]'
+        cur += ch
+    args.append(cur.strip())
+    if len(args) != len(members):
+        raise WPError('%s: constructor %s called with %d arguments, expected %d' % (cname, ctor, len(args), len(members)))
+    sig = re.match(r'\s*void\s+' + re.escape(cname) + r'\s*\(\s*struct\s+\w+\s*\*\s*vp_ret\s*,', text)
+    if not sig:
+        raise WPError('%s: signature does not start with the out-struct parameter' % cname)
+    out = []
+    for (fty, fnm), a in zip(members, args):
+        t = '%s %s__%s(' % (fty, cname, fnm) + text[sig.end():m[0].start()] + 'return %s; }' % a
+        d, (name, params, rty), side = define_function(t, mode, funcs, structs=structs)
+        out.append((d, name, params, rty, side))
+    return out
+
+
 # ----------------------------------------------------------------------------------------
 # solvers
 # ----------------------------------------------------------------------------------------
@@ -664,6 +692,14 @@ def run_job_uncached(job, tier='quick'):
         for cname in job['functions']:
             e = BLD.emit_function(cname, {})
             res['meta']['functions'] += e['audit']
+            if cname in job.get('out_struct', {}):
+                # a function returning a class object built by ONE constructor call `{ ctor(vp_ret, a1..an); return; }`:
+                # one SMT function per constructor argument, <fn>__<member>, generated from the same extracted text
+                ctor, members = job['out_struct'][cname]
+                for (d, name, params, rty, side) in define_out_functions(e['text'], cname, ctor, members, mode, funcs, job.get('structs')):
+                    funcs[name] = (params, rty)
+                    defs.append('; ---- generated from the extracted text of %s, constructor argument %s (%d side conditions) ----\n%s' % (cname, name, len(side), d))
+                continue
             d, (name, params, rty), side = define_function(e['text'], mode, funcs, structs=job.get('structs'))
             funcs[name] = (params, rty)
             defs.append('; ---- generated from the extracted text of %s (%d side conditions) ----\n%s' % (cname, len(side), d))
